@@ -18,7 +18,7 @@ RULE = ("real ExtendedDaemonSet Reconciles on a running canary: 0-12 nodes (labe
 ASSUMPTIONS = [
     "node names are unique; the list read (status.canary.nodes) is duplicate free for the distinctness monitor",
     "Go's sort.Slice is stable below 13 elements (insertion sort): node populations are kept <= 12",
-    "least-restarts is monitored (not proved) and only without anti-affinity keys",
+    "least-restarts is proved (C15_least_restarts) and monitored without anti-affinity keys; with keys the quota may skip a candidate",
 ]
 CODES = {
     1: "model does not predict the reconcile",
@@ -34,7 +34,8 @@ CODES = {
     20: "harness panic",
 }
 OPEN_STATEMENTS = ["C15_valid_while_active_statement (false of the code: known finding D9)",
-                   "C15_least_restarts / anti-affinity quota: monitored on the implementation, not proved"]
+                   "spreading over the values of nodeAntiAffinityKeys (the per-value quota): monitored through the correspondence only; "
+                   "least-restarts is proved without anti-affinity keys (C15_least_restarts)"]
 GO_TIMEOUT = 1200
 
 
